@@ -143,7 +143,7 @@ def run_case(case, workdir):
         L = ref.nlevels - 1 if limit is None else limit
         cov, lvl = ref.covering(limit=L, with_level=True)
         out = os.path.join(workdir, "cli_out")
-        argv = ["mandoline", path, "-f", "array", "-o", out, "-V", "0", "-v"] + fl + (["-L", str(limit)] if limit is not None else []) + (["-s"] if serial else [])
+        argv = ["mandoline", path, "-f", "array", "-o", out, "-v"] + fl + (["-L", str(limit)] if limit is not None else []) + (["-s", "-V", "0"] if serial else [])
         with vpool.controlled():
             with poisoned(MODS, 0):
                 st, val = run_cli(mcli.main, argv)
